@@ -218,6 +218,10 @@ class SNum(Sym):
             for _ in range(o):
                 r = self * r
             return r
+        if o == 0.5:
+            from . import npreal
+
+            return npreal.r_sqrt(self)
         raise Unsupported("symbolic power")
 
     # comparisons -----------------------------------------------------------------------
